@@ -357,6 +357,9 @@ func (fx *FnExec) wellTyped(v Val, h *Heap) string {
 		if l.Sort == "Int" && l.T != nil {
 			facts = append(facts, rangeFact(v.L[i], l.T))
 		}
+		if l.Sort == "Str" {
+			facts = append(facts, sLe(app("str_len", v.L[i]), "4611686018427387903")) // no string is longer than 2^62 bytes
+		}
 		if l.Sort == "Int" && (l.Path == "len" || strings.HasSuffix(l.Path, ".len")) {
 			facts = append(facts, sLe("0", v.L[i]), sLe(v.L[i], "4611686018427387903")) // no object is larger than 2^62 bytes
 			// nil slices are empty
